@@ -6,7 +6,7 @@
 From Coq Require Import ZArith QArith List Bool.
 From Flocq Require Import Core BinarySingleNaN.
 From UomV Require Import Model.Tables Model.Conv Model.FloatM Model.FloatOps Model.Exact
-  Model.Quantity Model.Storages.
+  Model.Quantity Model.Storages Model.Duration.
 Import ListNotations.
 Open Scope Z_scope.
 
@@ -29,10 +29,12 @@ Inductive req (val : Type) :=
 | RRoundTo (r : rnd) (U : list cexpr) (d : list Z) (coef : cexpr) (const : option cexpr) (v : val)
 | RUn (o : unop) (a : val)
 | RHist (ac : bool) (U : list cexpr) (d : list Z) (init : val) (ops : list (hreq val))
-| RCoef (e : cexpr).
+| RCoef (e : cexpr)
+| RToDur (ac : bool) (U : list cexpr) (d : list Z) (ksec knano : cexpr) (v : val)
+| RFromDur (ac : bool) (U : list cexpr) (d : list Z) (ksec knano : cexpr) (secs nanos : Z).
 Arguments RNew {val}. Arguments RGet {val}. Arguments RRebase {val}. Arguments RBin {val}.
 Arguments RCmp {val}. Arguments RPcmp {val}. Arguments RMulAdd {val}. Arguments RRoundTo {val}.
-Arguments RUn {val}. Arguments RHist {val}. Arguments RCoef {val}.
+Arguments RUn {val}. Arguments RHist {val}. Arguments RCoef {val}. Arguments RToDur {val}. Arguments RFromDur {val}.
 
 Definition zb (b : bool) : Z := if b then 1 else 0.
 
@@ -94,6 +96,11 @@ Definition f_run (lib : flib) (r : req Z) : list Z :=
   | RUn o a => [tob (fun_sem prec emax Hprec Hmax o (ofb a))]
   | RHist ac U d init ops => map tob (f_hist lib ac U d (ofb init) ops)
   | RCoef e => [tob (ev e)]
+  | RToDur ac U d ks kn v =>
+      match time_to_duration prec emax Hprec Hmax lib ac (map ev U) d (ev ks) (ev kn) (ofb v) with
+      | DurOk s n => [0; s; n] | DurNegative => [1] | DurOverflow => [2] | DurPanic => [3]
+      end
+  | RFromDur ac U d ks kn s n => [tob (duration_to_time prec emax Hprec Hmax lib ac (map ev U) d (ev ks) (ev kn) s n)]
   end.
 
 (* exact rational value of a float; None for NaN/infinities *)
@@ -141,6 +148,8 @@ Definition q_run (r : req Q) : list Q :=
   | RUn o a => [qun_sem o a]
   | RHist ac U d init ops => trace_q StQ ac (evq U) d (map q_hop ops) init
   | RCoef e => [coef_exact e]
+  | RToDur _ _ _ _ _ _ => []
+  | RFromDur _ _ _ _ _ _ _ => []
   end.
 
 (* integer classes: values are Z; conversion() = into Ratio, value() = to_integer *)
@@ -164,4 +173,6 @@ Definition z_run (r : req Z) : list Z :=
   | RUn o a => [zun_sem o a]
   | RHist ac U d init ops => trace_q StZ ac (evq U) d (map z_hop ops) init
   | RCoef e => []
+  | RToDur _ _ _ _ _ _ => []
+  | RFromDur _ _ _ _ _ _ _ => []
   end.
